@@ -168,7 +168,8 @@ impl Reader {
                         return Err(format::Error::Malformed);
                     }
                 }
-                if !(0 <= t.num && t.num <= self.header.hr.num_items - t.start) {
+                let max_num = self.header.hr.num_items.checked_sub(t.start);
+                if !(0 <= t.num && max_num.map_or(false, |max_num| t.num <= max_num)) {
                     error!("invalid item_type num: must be in range 0 to num_items - start + 1, item_type={} type_id={} start={} num={}", i, t.type_id, t.start, t.num);
                     return Err(format::Error::Malformed);
                 }
@@ -222,6 +223,13 @@ impl Reader {
                 if item_header.size < 0 {
                     error!(
                         "item has negative size, item={} size={}",
+                        i, item_header.size
+                    );
+                    return Err(format::Error::Malformed);
+                }
+                if item_header.size as usize % mem::size_of::<i32>() != 0 {
+                    error!(
+                        "item size not divisible by 4, item={} size={}",
                         i, item_header.size
                     );
                     return Err(format::Error::Malformed);
